@@ -73,7 +73,8 @@ func c20anyOfDelegated(p *core.Prog, f *ssa.Function, isMatch func(ssa.Value) bo
 		return false, false
 	}
 	g := core.Callee(&call.Call)
-	if g == nil || !p.InRepo(g) || len(g.Blocks) == 0 {
+	stdAnyOf := core.StdCallee(&call.Call) == "slices.ContainsFunc" // the standard any-of: true iff pred holds for some element (trusted model)
+	if !stdAnyOf && (g == nil || !p.InRepo(g) || len(g.Blocks) == 0) {
 		return false, false
 	}
 	// the predicate argument: a closure every return of which is the match call itself
@@ -97,7 +98,7 @@ func c20anyOfDelegated(p *core.Prog, f *ssa.Function, isMatch func(ssa.Value) bo
 			pi = i
 		}
 	}
-	if pi < 0 || pi >= len(g.Params) {
+	if pi < 0 || (!stdAnyOf && pi >= len(g.Params)) {
 		return false, false
 	}
 	// the members: some argument is the receiver's member list
@@ -109,6 +110,9 @@ func c20anyOfDelegated(p *core.Prog, f *ssa.Function, isMatch func(ssa.Value) bo
 	}
 	if !members {
 		return false, false
+	}
+	if stdAnyOf {
+		return true, true
 	}
 	prm := g.Params[pi]
 	return c20anyOf(g, func(v ssa.Value) bool {
@@ -170,7 +174,33 @@ func runC20(c *core.Ctx) {
 		c.Unknown("R4", "CurryDef.Call", "-", "method not found")
 	} else {
 		c.Analysed(core.FuncName(f))
-		ok, detail := c20curryCall(p, f)
+		// `Call(args...)` may do its work in one unexported method of the same receiver handed the same arguments and
+		// then return the receiver
+		impl := f
+		{
+			var only *ssa.Call
+			n := 0
+			core.Instrs(f, func(ins ssa.Instruction) {
+				if call, isC := ins.(*ssa.Call); isC {
+					n++
+					only = call
+				}
+			})
+			if n == 1 && len(f.Blocks) == 1 {
+				if g := core.Callee(&only.Call); g != nil && p.InRepo(g) && len(g.Blocks) > 0 && g.Signature.Recv() != nil && len(only.Call.Args) == len(f.Params) && len(g.Params) == len(f.Params) {
+					same := true
+					for i, a := range only.Call.Args {
+						if core.Resolve(a) != ssa.Value(f.Params[i]) {
+							same = false
+						}
+					}
+					if same {
+						impl = g
+					}
+				}
+			}
+		}
+		ok, detail := c20curryCall(p, impl)
 		c.Check(ok, "R4", "CurryDef.Call", p.Pos(f.Pos()), detail, detail)
 		lockBalance(c, core.ComputeLocks(p), "R4", funcsOfType(p, p.Fpgo, "CurryDef"))
 	}
@@ -827,6 +857,64 @@ func c20curryCall(p *core.Prog, f *ssa.Function) (bool, string) {
 }
 
 func c20matchFor(p *core.Prog, f *ssa.Function) (bool, string) {
+	return c20matchForm(p, f, false)
+}
+
+// c20matchForm: tryForm = the non-panicking general form `TryMatchFor(v) (result, matched)`: the first accepting pattern
+// returns (Apply(v), true) at once and (_, false) is returned only after all patterns were tried.
+func c20matchForm(p *core.Prog, f *ssa.Function, tryForm bool) (bool, string) {
+	if !tryForm {
+		// MatchFor written over the general form: `if r, ok := x.TryMatchFor(v); ok { return r }; panic(…)`
+		var try *ssa.Call
+		n := 0
+		core.Instrs(f, func(ins ssa.Instruction) {
+			if call, ok := ins.(*ssa.Call); ok {
+				if call.Call.IsInvoke() && (call.Call.Method.Name() == "Matches" || call.Call.Method.Name() == "Apply") {
+					n += 10
+				}
+				if g := core.Callee(&call.Call); g != nil && p.InRepo(g) && len(g.Blocks) > 0 && g.Signature.Results().Len() == 2 && len(call.Call.Args) == 2 &&
+					core.Resolve(call.Call.Args[0]) == core.Resolve(ssa.Value(f.Params[0])) && core.Resolve(call.Call.Args[1]) == ssa.Value(f.Params[1]) {
+					try = call
+					n++
+				}
+			}
+		})
+		if try != nil && n == 1 {
+			okRet, okPanic := true, false
+			nRet := 0
+			core.Instrs(f, func(ins ssa.Instruction) {
+				switch x := ins.(type) {
+				case *ssa.Return:
+					if x.Block() == f.Recover {
+						return
+					}
+					nRet++
+					ex, isE := core.Resolve(core.RetVals(x)[0]).(*ssa.Extract)
+					matched := false
+					for _, cnd := range core.EdgeFacts(x.Block()) {
+						nrm := core.Normalize(cnd)
+						if e2, isE2 := nrm.V.(*ssa.Extract); isE2 && e2.Tuple == ssa.Value(try) && e2.Index == 1 && nrm.True {
+							matched = true
+						}
+					}
+					if !isE || ex.Tuple != ssa.Value(try) || ex.Index != 0 || !matched {
+						okRet = false
+					}
+				case *ssa.Panic:
+					for _, cnd := range core.EdgeFacts(x.Block()) {
+						nrm := core.Normalize(cnd)
+						if e2, isE2 := nrm.V.(*ssa.Extract); isE2 && e2.Tuple == ssa.Value(try) && e2.Index == 1 && !nrm.True {
+							okPanic = true
+						}
+					}
+				}
+			})
+			if !okRet || !okPanic || nRet != 1 {
+				return false, "MatchFor does not return the general form's result exactly when it matched and panic otherwise"
+			}
+			return c20matchForm(p, core.Callee(&try.Call), true)
+		}
+	}
 	var matches, apply *ssa.Call
 	core.Instrs(f, func(ins ssa.Instruction) {
 		if call, ok := ins.(*ssa.Call); ok && call.Call.IsInvoke() {
@@ -873,6 +961,27 @@ func c20matchFor(p *core.Prog, f *ssa.Function) (bool, string) {
 	ret, isRet := apply.Block().Instrs[len(apply.Block().Instrs)-1].(*ssa.Return)
 	if !onTrue || !isRet || core.RetVals(ret)[0] != ssa.Value(apply) {
 		return false, "the result of the first accepting pattern is not returned immediately (a later pattern can override it)"
+	}
+	if tryForm {
+		if rv := core.RetVals(ret); len(rv) != 2 || !isTrueConst(rv[1]) {
+			return false, "the general form does not report a match together with the accepting pattern's result"
+		}
+		nRet, okAfter := 0, false
+		core.Instrs(f, func(ins ssa.Instruction) {
+			if r, isR := ins.(*ssa.Return); isR && r.Block() != f.Recover {
+				nRet++
+				if r != ret {
+					rv := core.RetVals(r)
+					if k, isK := rv[1].(*ssa.Const); isK && !isTrueConst(k) && !core.InLoop(r.Block()) {
+						okAfter = true
+					}
+				}
+			}
+		})
+		if nRet != 2 || !okAfter {
+			return false, "the general form must return only from the first match and report no match only after all patterns were tried"
+		}
+		return true, "ascending visit; first pattern with Matches(value) → (Apply(value), true); (nil, false) after the loop; MatchFor panics on false"
 	}
 	// exactly one return; panic reachable only from the loop exit
 	nRet := 0
